@@ -400,6 +400,8 @@ theorem forEach_spec {E : Nat → Nat → Prop} {n fuel : Nat} {rec : Nat → St
       rw [this]
       exact SpecN.append hs1 (hs2.congr (fun v => hext1 v))
 
+/-- the executable search meets the specification for every fuel value: the fuel bounds the number of
+unvisited vertices, which strictly decreases along the recursion, so `Err.diverges` is never produced -/
 theorem dfsG_spec {E : Nat → Nat → Prop} {n : Nat} {inc : Nat → List Nat} {far : Nat → Option Nat}
     (hE : ∀ v w, E v w ↔ ∃ e ∈ inc v, far e = some w)
     (hfar : ∀ v, ∀ e ∈ inc v, ∃ w, far e = some w)
@@ -411,15 +413,13 @@ theorem dfsG_spec {E : Nat → Nat → Prop} {n : Nat} {inc : Nat → List Nat} 
     intro v vis st hv hfuel
     by_cases hvis : v ∈ vis
     · refine ⟨[], vis, by simp [dfsG, hvis], by simp, SpecN.visited hvis⟩
-    ·
-      have := unv_pos hv hvis
+    · have := unv_pos hv hvis
       omega
   | succ fuel ih =>
     intro v vis st hv hfuel
     by_cases hvis : v ∈ vis
     · refine ⟨[], vis, by simp [dfsG, hvis], by simp, SpecN.visited hvis⟩
-    ·
-      have hfuel' : unv n (v :: vis) ≤ fuel := by
+    · have hfuel' : unv n (v :: vis) ≤ fuel := by
         have := unv_cons_lt hv hvis
         omega
       have hxs : ∀ x ∈ inc v, ∃ w, far x = some w ∧ w < n := by
